@@ -156,25 +156,36 @@ func (s *Scn) HostileClassFor(kind string) string {
 	}
 	isAdEp := s.Fam == "ad" || s.Ep == "SrvFirst" || s.Ep == "CliServerAd"
 	// budget accumulation: units of 0.6 x cap that fit one by one but not together
-	var acc []string
+	hasSec, hasOrd, hasRep := false, false, false
 	for i, it := range s.Items {
 		switch {
 		case it.K == "rep":
-			acc = append(acc, it.label())
+			hasRep = true
+			if it.C == "sec" {
+				hasSec = true
+			} else {
+				hasOrd = true
+			}
 		case it.K == "str" && it.N == "p60":
 			if i > 0 && s.Items[i-1].K == "str" && s.Items[i-1].C == "marker" {
-				acc = append(acc, "sec")
+				hasSec = true
 			} else {
-				acc = append(acc, "ord")
+				hasOrd = true
 			}
 		}
 	}
-	if len(acc) > 0 {
-		lab := "accum:" + strings.Join(acc, "+")
-		for _, it := range s.Items {
-			if it.K == "int" && it.C == "i32max" {
-				lab += ",count=i32max"
-			}
+	if hasSec || hasOrd {
+		lab := "accum:"
+		switch {
+		case hasSec && hasOrd:
+			lab += "secrets+expressions"
+		case hasSec:
+			lab += "secrets"
+		default:
+			lab += "expressions"
+		}
+		if hasRep {
+			lab += "*16"
 		}
 		return lab
 	}
